@@ -106,6 +106,8 @@ pub struct CallInfo {
     /// Some when exactly one candidate current state remains
     pub current: Option<Cand>,
     pub n_cands: usize,
+    /// largest current score over the candidates (a score above it is an improvement in every candidate world)
+    pub max_score: f64,
 }
 
 impl Model {
@@ -117,22 +119,29 @@ impl Model {
         // candidate current states after the previous step
         let mut out: Vec<Cand> = Vec::new();
         let push = |c: Cand, out: &mut Vec<Cand>| {
-            if !out.iter().any(|o| same(&o.params, &c.params)) {
+            // the optimiser's state is (parameters, current score): two candidates with equal parameters but
+            // different scores (a move clamped to no change that may or may not have been accepted) are distinct
+            if !out.iter().any(|o| same(&o.params, &c.params) && o.score.to_bits() == c.score.to_bits()) {
                 out.push(c);
             }
         };
         if let Some((proposal, returned, bases)) = self.pending.take() {
             for (b, e) in bases.into_iter() {
-                let e = if self.use_expectations { e } else { Expect::Unknown };
+                // decision-agnostic mode: any proposal with a score may have been accepted or rejected; a proposal
+                // without a score cannot be "the state with the best-known current score" under any rule
+                let e = if self.use_expectations {
+                    e
+                } else if returned.is_none() {
+                    Expect::Reject
+                } else {
+                    Expect::Unknown
+                };
                 match e {
                     Expect::Accept => push(Cand { params: proposal.clone(), score: returned.unwrap() }, &mut out),
                     Expect::Reject => push(b, &mut out),
                     Expect::Unknown => {
                         if let Some(s) = returned {
                             push(Cand { params: proposal.clone(), score: s }, &mut out);
-                        } else if !self.use_expectations {
-                            // decision-agnostic: even an undefined score might have been "accepted"
-                            push(Cand { params: proposal.clone(), score: f64::NAN }, &mut out);
                         }
                         push(b, &mut out);
                     }
@@ -148,10 +157,11 @@ impl Model {
         let call = self.calls;
         if self.finished {
             let current = if self.cands.len() == 1 { Some(self.cands[0].clone()) } else { self.cands.iter().find(|c| same(&c.params, params)).cloned() };
-            return CallInfo { call, finished: true, current, n_cands: self.cands.len() };
+            let max_score = self.cands.iter().map(|c| c.score).fold(f64::NEG_INFINITY, f64::max);
+            return CallInfo { call, finished: true, current, n_cands: self.cands.len(), max_score };
         }
         if call == 0 {
-            return CallInfo { call, finished: false, current: None, n_cands: 0 };
+            return CallInfo { call, finished: false, current: None, n_cands: 0, max_score: f64::NAN };
         }
         let prev_proposal = self.pending.as_ref().map(|p| p.0.clone());
         let after_prev = self.resolve_pending();
@@ -193,7 +203,8 @@ impl Model {
             self.cands = bases;
         }
         let current = if self.cands.len() == 1 { Some(self.cands[0].clone()) } else { None };
-        CallInfo { call, finished: false, current, n_cands: self.cands.len() }
+        let max_score = self.cands.iter().map(|c| c.score).fold(f64::NEG_INFINITY, f64::max);
+        CallInfo { call, finished: false, current, n_cands: self.cands.len(), max_score }
     }
 
     pub fn end_call(&mut self, params: &[f64], returned: Option<f64>) {
@@ -280,6 +291,8 @@ pub trait Policy: Send {
 
 pub struct Brain {
     pub model: Model,
+    /// decision-agnostic observer of the same calls (every step may have been accepted or rejected)
+    pub shadow: Option<Model>,
     pub policy: Box<dyn Policy>,
     pub log_scores: Vec<Option<f64>>,
 }
@@ -287,7 +300,7 @@ pub struct Brain {
 pub type SharedBrain = Arc<Mutex<Brain>>;
 
 pub fn new_brain(model: Model, policy: Box<dyn Policy>) -> SharedBrain {
-    Arc::new(Mutex::new(Brain { model, policy, log_scores: vec![] }))
+    Arc::new(Mutex::new(Brain { model, shadow: None, policy, log_scores: vec![] }))
 }
 
 /// Synthetic state: n parameters with chosen bounds, score decided by the brain.
@@ -354,8 +367,14 @@ impl State for Script {
         // the guard is dropped before returning; nothing below calls score() again
         let mut brain = self.brain.lock().unwrap_or_else(|e| e.into_inner());
         let info = brain.model.begin_call(&params);
+        if let Some(sh) = brain.shadow.as_mut() {
+            let _ = sh.begin_call(&params);
+        }
         let ret = brain.policy.decide(&params, &info);
         brain.model.end_call(&params, ret);
+        if let Some(sh) = brain.shadow.as_mut() {
+            sh.end_call(&params, ret);
+        }
         brain.log_scores.push(ret);
         ret
     }
